@@ -379,6 +379,96 @@ def run_history(hist, cap, ttl, kind, shared_strict, resolver_second: bool = Fal
         rcache.time = saved
 
 
+def _edit(pol: dict, f) -> dict:
+    q = copy.deepcopy(pol)
+    f(q)
+    return q
+
+
+def _unserialisable(pol: dict) -> dict:
+    """the same document carrying a value json.dumps refuses (a date): the engine has no etag for it and must not cache under it"""
+    from datetime import date
+    return {**copy.deepcopy(pol), "issued": date(2024, 6, 1)}
+
+
+def twin_policies() -> list:
+    """pairs of documents that differ in ONE detail a sloppy policy fingerprint / a 'same document' shortcut would not see"""
+    a, b = POL_A, POL_B
+    return [("rule id ''", a, _edit(a, lambda q: q["rules"][0].__setitem__("id", ""))),
+            ("rule id absent", a, _edit(a, lambda q: q["rules"][0].pop("id"))),
+            ("'' vs absent", _edit(a, lambda q: q["rules"][0].__setitem__("id", "")), _edit(a, lambda q: q["rules"][0].pop("id"))),
+            ("resource id 1 vs '1'", a, _edit(a, lambda q: q["rules"][0]["resource"].__setitem__("id", "1"))),
+            ("resource id 1 vs True", a, _edit(a, lambda q: q["rules"][0]["resource"].__setitem__("id", True))),
+            ("obligations dropped", a, _edit(a, lambda q: q["rules"][0].__setitem__("obligations", []))),
+            ("rule order", b, _edit(b, lambda q: q["rules"].reverse())),
+            ("algorithm", a, _edit(a, lambda q: q.__setitem__("algorithm", "permit-overrides"))),
+            ("policy id", _edit(a, lambda q: q.__setitem__("id", "p")), _edit(a, lambda q: q.__setitem__("id", ""))),
+            ("both unserialisable", _unserialisable(a), _unserialisable(b)),
+            ("unserialisable, one rule id", _unserialisable(a), _unserialisable(_edit(a, lambda q: q["rules"][0].__setitem__("id", "other")))),
+            ("serialisable → unserialisable", a, _unserialisable(b)),
+            ("unserialisable → serialisable", _unserialisable(b), a)]
+
+
+def twin_cases(run: lib.Run) -> None:
+    """P, then P', then P again on one cached engine; every request of the pool after every publication, next to an uncached engine"""
+    for name, p1, p2 in twin_policies():
+        for cap, ttl, kind in ((2048, None, "lru"), (0, 5, "dict"), (2, 5, "lru")):
+            cache = DefaultInMemoryCache(maxsize=cap) if kind == "lru" else DictCache()
+            g = Guard(copy.deepcopy(p1), cache=cache, cache_ttl=ttl)
+            for step, cur in enumerate((p1, p2, p1, p2)):
+                if step:
+                    (g.set_policy if step % 2 else g.update_policy)(copy.deepcopy(cur))
+                plain = Guard(copy.deepcopy(cur))
+                for ri, r in enumerate(POOL):
+                    for again in (0, 1):
+                        got, want = decision(g, r), decision(plain, r)
+                        run.case(["twin", name, cap, ttl, kind, step, ri, again], True)
+                        run.count("twin-policy")
+                        if got != want:
+                            run.spec_failures.append({"part": "twin-policies", "pair": name, "first": repr(p1)[:400], "second": repr(p2)[:400],
+                                                      "publication": step, "maxsize": cap, "ttl": ttl, "cache": kind, "request": r,
+                                                      "cached": got, "uncached": want,
+                                                      "spec": "a cached engine returned a decision different from the uncached engine holding the same policy"})
+                            return
+
+
+def gather_cases(run: lib.Run) -> None:
+    """the whole pool in flight at once on ONE cached engine (a role resolver that yields to the loop makes the evaluations interleave),
+    twice; every answer next to the uncached engine's"""
+    import asyncio
+
+    class Yielding:
+        async def expand(self, roles):
+            await asyncio.sleep(0)
+            await asyncio.sleep(0)
+            return list(roles or [])
+
+    async def go(g):
+        async def one(r):
+            s_, a_, rs_, c_ = real.make_request(r)
+            d = await g.evaluate_async(s_, a_, rs_, c_)
+            return {f: proto.canon(getattr(d, f)) for f in FIELDS}
+        first = await asyncio.gather(*[one(r) for r in POOL])
+        second = await asyncio.gather(*[one(r) for r in reversed(POOL)])
+        return first, list(reversed(second))
+
+    for pol in POLICIES:
+        for cap, ttl in ((2048, None), (2, 5), (0, None)):
+            g = Guard(copy.deepcopy(pol), cache=DefaultInMemoryCache(maxsize=cap), cache_ttl=ttl, role_resolver=Yielding())
+            plain = Guard(copy.deepcopy(pol))
+            first, second = asyncio.run(go(g))
+            for ri, r in enumerate(POOL):
+                want = decision(plain, r)
+                run.case(["gather", cap, ttl, ri], True)
+                run.count("gather")
+                for rnd, got in (("first", first[ri]), ("second", second[ri])):
+                    if got != want:
+                        run.spec_failures.append({"part": "concurrent-evaluations", "round": rnd, "maxsize": cap, "ttl": ttl, "request": r,
+                                                  "cached": got, "uncached": want,
+                                                  "spec": "a cached engine returned a decision different from the uncached engine holding the same policy"})
+                        return
+
+
 def _stable_hash(*xs) -> int:
     """deterministic across processes (the builtin hash of strings is salted per process)"""
     import zlib
@@ -449,7 +539,9 @@ def check(run: lib.Run, audit: dict) -> int:
     run.rule = ("exhaustive: all histories of length ≤3 (quick; length 3 subsampled 1/7) / ≤4 (thorough) over a 12-letter alphabet (evaluate on either "
                 "of two engines sharing the cache: 3 requests incl. a near-duplicate pair; set_policy/update_policy A→B→A and a policy set; "
                 "clear_cache; clock +3/+10) × {LRU maxsize 0,1,2,2048 × ttl None,0,5; dict cache; copying cache} × second engine lax/strict; random "
-                "histories of length 5–60 over a 26-request near-duplicate pool; key probe: 3 policies × lax/strict × the pool; protocol shape. "
+                "histories of length 5–60 over a 26-request near-duplicate pool; key probe: 3 policies × lax/strict × the pool; protocol shape; 13 twin "
+                "document pairs (ids ''/absent, 1/'1'/True, dropped obligations, rule order, algorithm, documents json.dumps refuses) published "
+                "P,P',P,P' on one cached engine × the pool × 3 caches; the pool in flight at once (asyncio.gather, yielding role resolver). "
                 "non-trivial = a history with ≥2 evaluations")
     run.exhaustive = True
     run.rule += ("; serialiser tie (model Rbacx.canonJson vs Guard._normalize_env_for_cache): the 26-request pool × lax/strict, random requests towards "
@@ -468,6 +560,8 @@ def check(run: lib.Run, audit: dict) -> int:
     real_keys = check_keys_and_protocol(run)
     check_canon_model(run, real_keys)
     run_cases(run)
+    twin_cases(run)
+    gather_cases(run)
     violations = []
     if run.disagreements and not run.spec_failures:
         check_canon_model(run, real_keys, scale=5)  # correspondence broke: widen the search for two envs sharing a real key
